@@ -24,7 +24,18 @@ def scenarios(rng, n):
     import check_ops
     out = []
     for i in range(n):
-        shape = i % 6
+        shape = i % 7
+        if shape == 6:
+            # a node built through NodeBuilder::native: its validity gate is applied by the runtime.  While its required input
+            # holds no value its evaluation does not run, but its wake-ups are still consumed one by one and the later ones stay
+            horizon = rng.choice([9, 11])
+            late = rng.choice([horizon - 1, horizon + 3])            # the required input becomes valid late, or never
+            ticks = sorted(rng.sample(range(2, horizon - 1), rng.randint(1, 3)))
+            at = sorted(rng.sample(range(3, horizon), rng.randint(2, 3)))
+            out.append("\n".join(["scn snat%d" % i, "opt start=1 end=%d" % (horizon + 1), "graph root", "n 1 src script=%d:1" % late,
+                                  "n 2 src script=" + ";".join("%d:%d" % (t, t) for t in ticks), "n 3 rec in=1", "n 4 rec in=2",
+                                  "native 50 in=1,2 at=" + ",".join(str(t) for t in at), "endgraph", "run"]))
+            continue
         if shape == 5:
             # map_sink_ over a dynamic list: one child per index, children hold wake-ups at different times and elements
             # of other indexes tick in between
